@@ -181,8 +181,6 @@ structure Mono (c c' : Conn) : Prop where
   oh : c'.openHandler = c.openHandler
   p : same_p[c, c']
   en : c'.sm.enabled = c.sm.enabled
-  sasl : c'.saslSupport = c.saslSupport
-  off : c'.g.offeredMechs = c.g.offeredMechs
 
 theorem NoH.mono {u : Option Nat} {p : HFun → Bool} {c c' : Conn} (h : NoH u p c)
     (hs : ∀ h' ∈ c'.handlers, ∃ h ∈ c.handlers, h'.fn = h.fn ∧ h'.uid = h.uid ∧ h'.ud = h.ud ∧ h'.user = h.user) :
@@ -272,28 +270,35 @@ theorem Ph.mono {u ut : Option Nat} {c c' : Conn} (m : Mono c c') (h : Ph u ut c
   · rw [m.tls.1, m.en]; exact h.e7
   · rw [m.tls.1, m.p.1, m.p.2]; exact h.frp
 
-theorem Me.mono {u ut : Option Nat} {c c' : Conn} (m : Mono c c') (h : Me u ut c) : Me u ut c' := by
-  have nt : NT c → NT c' := fun n => n.congr m.cfg.2.2.2.2 m.off m.sasl
+theorem Me.mono {u ut : Option Nat} {c c' : Conn} (m : Mono c c') (sasl : c'.saslSupport = c.saslSupport)
+    (off : c'.g.offeredMechs = c.g.offeredMechs) (h : Me u ut c) : Me u ut c' := by
+  have nt : NT c → NT c' := fun n => n.congr m.cfg.2.2.2.2 off sasl
   refine ⟨?_, ?_, ?_⟩
   · rw [m.tls.1]; intro hl
     rcases h.i1 hl with n | ⟨a, b, d, e⟩
     · exact .inl (nt n)
     · exact .inr ⟨a.mono m.hs, b.mono m.tm, d.mono m.hs, fun f => by
         have := e (f.mono m); unfold OpenPre at *; rw [m.oh]; exact this⟩
-  · rw [m.tls.1, m.sasl]; intro hl
+  · rw [m.tls.1, sasl]; intro hl
     rcases h.i2 hl with a | n
     · exact .inl (a.mono m.hs)
     · exact .inr fun x => nt (n x)
-  · unfold KMask; rw [m.sasl]; exact h.k
+  · unfold KMask; rw [sasl]; exact h.k
 
 theorem El.mono {c c' : Conn} (m : Mono c c') (io : same_io[c, c']) (h : El c) : El c' := by
   obtain ⟨m1, m2, m3, _, _⟩ := m.cfg
   refine ⟨by rw [io.2]; exact h.txN, ?_, fun e he => h.smN e (m.smq e he)⟩
   rw [io.1, m.tls.1]; unfold FlagsNow; rw [m1, m2, m3]; exact h.qN
 
-theorem Inv.mono {u ut : Option Nat} {c c' : Conn} (h : Inv u ut c) (m : Mono c c') (io : same_io[c, c']) :
+theorem Inv.mono {u ut : Option Nat} {c c' : Conn} (h : Inv u ut c) (m : Mono c c') (io : same_io[c, c'])
+    (sasl : c'.saslSupport = c.saslSupport := by simp) (off : c'.g.offeredMechs = c.g.offeredMechs := by simp) :
     Inv u ut c' :=
-  ⟨h.g.mono m io.1, h.ph.mono m, h.me.mono m, h.el.mono m io⟩
+  ⟨h.g.mono m io.1, h.ph.mono m, h.me.mono m sasl off, h.el.mono m io⟩
+
+/-- only the mechanism bookkeeping changed -/
+theorem Inv.setMe {u ut : Option Nat} {c c' : Conn} (h : Inv u ut c) (m : Mono c c') (io : same_io[c, c'])
+    (me : Me u ut c') : Inv u ut c' :=
+  ⟨h.g.mono m io.1, h.ph.mono m, me, h.el.mono m io⟩
 
 /-- everything the invariant reads is unchanged -/
 def SameAll (c c' : Conn) : Prop :=
@@ -304,10 +309,10 @@ def SameAll (c c' : Conn) : Prop :=
 theorem Mono.of_same {c c' : Conn} (s : SameAll c c') : Mono c c' := by
   obtain ⟨a1, a2, a3, a4, a5, a6, a7, a8, a9, a10, a11, a12⟩ := s
   exact ⟨fun h hm => ⟨h, a1 ▸ hm, rfl, rfl, rfl, rfl⟩, fun h hm => ⟨h, a2 ▸ hm, rfl, rfl⟩,
-    fun t hm => ⟨t, a3 ▸ hm, rfl, rfl⟩, fun e he => a4 ▸ he, a5, a6, a8, a9, a10, a11, a12⟩
+    fun t hm => ⟨t, a3 ▸ hm, rfl, rfl⟩, fun e he => a4 ▸ he, a5, a6, a8, a9, a10⟩
 
 theorem Inv.same {u ut : Option Nat} {c c' : Conn} (h : Inv u ut c) (s : SameAll c c') : Inv u ut c' :=
-  h.mono (Mono.of_same s) s.2.2.2.2.2.2.1
+  h.mono (Mono.of_same s) s.2.2.2.2.2.2.1 s.2.2.2.2.2.2.2.2.2.2.1 s.2.2.2.2.2.2.2.2.2.2.2
 
 theorem NoH_addHandler {u : Option Nat} {p : HFun → Bool} {c : Conn} {fn : HFun} {ud : Nat}
     {ns name type : Option Bytes} {user : Bool} (h : NoH u p c) (hp : p fn = false) :
@@ -588,14 +593,14 @@ theorem Inv_addTimed {u ut : Option Nat} {c : Conn} (h : Inv u ut c) (fn : TFun)
 
 theorem Inv_delTimed {u ut : Option Nat} {c : Conn} (h : Inv u ut c) (fn : TFun) : Inv u ut (delTimed c fn) := by
   refine h.mono ⟨fun x hx => ⟨x, by simpa using hx, rfl, rfl, rfl, rfl⟩, fun x hx => ⟨x, by simpa using hx, rfl, rfl⟩,
-    ?_, by simp, by simp, by simp, by simp, by simp, by simp, by simp, by simp⟩ (by simp)
+    ?_, by simp, by simp, by simp, by simp, by simp, by simp⟩ (by simp)
   intro t ht
   simp only [delTimed_frame, List.mem_filter] at ht
   exact ⟨t, ht.1, rfl, rfl⟩
 
 theorem Inv_resetTimed {u ut : Option Nat} {c : Conn} (h : Inv u ut c) : Inv u ut (resetTimed c) := by
   refine h.mono ⟨fun x hx => ⟨x, by simpa using hx, rfl, rfl, rfl, rfl⟩, fun x hx => ⟨x, by simpa using hx, rfl, rfl⟩,
-    ?_, by simp, by simp, by simp, by simp, by simp, by simp, by simp, by simp⟩ (by simp)
+    ?_, by simp, by simp, by simp, by simp, by simp, by simp⟩ (by simp)
   intro t ht
   simp only [resetTimed_frame, List.mem_map] at ht
   obtain ⟨t0, h0, rfl⟩ := ht
@@ -608,21 +613,21 @@ theorem Inv_notify {u ut : Option Nat} {c : Conn} (h : Inv u ut c) (e : Ev) : In
 theorem Inv_filterHandlers {u ut : Option Nat} {c : Conn} (h : Inv u ut c) (p : Handler → Bool) :
     Inv u ut { c with handlers := c.handlers.filter p } := by
   refine h.mono ⟨?_, fun x hx => ⟨x, hx, rfl, rfl⟩, fun x hx => ⟨x, hx, rfl, rfl⟩, fun e he => he,
-    by simp, by simp, by simp, by simp, by simp, by simp, by simp⟩ (by simp)
+    by simp, by simp, by simp, by simp, by simp⟩ (by simp)
   intro x hx
   exact ⟨x, (List.mem_filter.1 hx).1, rfl, rfl, rfl, rfl⟩
 
 theorem Inv_filterIdHandlers {u ut : Option Nat} {c : Conn} (h : Inv u ut c) (p : Handler → Bool) :
     Inv u ut { c with idHandlers := c.idHandlers.filter p } := by
   refine h.mono ⟨fun x hx => ⟨x, hx, rfl, rfl, rfl, rfl⟩, ?_, fun x hx => ⟨x, hx, rfl, rfl⟩, fun e he => he,
-    by simp, by simp, by simp, by simp, by simp, by simp, by simp⟩ (by simp)
+    by simp, by simp, by simp, by simp, by simp⟩ (by simp)
   intro x hx
   exact ⟨x, (List.mem_filter.1 hx).1, rfl, rfl⟩
 
 theorem Inv_filterTimed {u ut : Option Nat} {c : Conn} (h : Inv u ut c) (p : Timed → Bool) :
     Inv u ut { c with timed := c.timed.filter p } := by
   refine h.mono ⟨fun x hx => ⟨x, hx, rfl, rfl, rfl, rfl⟩, fun x hx => ⟨x, hx, rfl, rfl⟩, ?_, fun e he => he,
-    by simp, by simp, by simp, by simp, by simp, by simp, by simp⟩ (by simp)
+    by simp, by simp, by simp, by simp, by simp⟩ (by simp)
   intro x hx
   exact ⟨x, (List.mem_filter.1 hx).1, rfl, rfl⟩
 
@@ -635,10 +640,10 @@ theorem Inv_pushRawWith {u ut : Option Nat} {c : Conn} (h : Inv u ut c) (it : It
   have m : Mono c (pushRawWith c it o s) :=
     ⟨fun x hx => ⟨x, by simpa using hx, rfl, rfl, rfl, rfl⟩, fun x hx => ⟨x, by simpa using hx, rfl, rfl⟩,
       fun x hx => ⟨x, by simpa using hx, rfl, rfl⟩, fun e he => by simpa using he,
-      by simp, by simp, by simp, by simp, by simp, by simp, by simp⟩
+      by simp, by simp, by simp, by simp, by simp⟩
   have g0 : G u { pushRawWith c it o s with queue := c.queue } := h.g.mono
-    ⟨m.hs, m.ids, m.tm, m.smq, m.cfg, m.tls, m.oh, m.p, m.en, m.sasl, m.off⟩ rfl
-  refine ⟨⟨g0.nc, g0.userH, g0.userI, g0.ud0, g0.uniq, ?_, g0.noT, g0.gated⟩, h.ph.mono m, h.me.mono m,
+    ⟨m.hs, m.ids, m.tm, m.smq, m.cfg, m.tls, m.oh, m.p, m.en⟩ rfl
+  refine ⟨⟨g0.nc, g0.userH, g0.userI, g0.ud0, g0.uniq, ?_, g0.noT, g0.gated⟩, h.ph.mono m, h.me.mono m (by simp) (by simp),
     ⟨by simpa using h.el.txN, ?_, by simpa using h.el.smN⟩⟩
   · intro hc hm e he hb
     simp only [pushRawWith_frame] at hc hm ⊢
@@ -790,7 +795,6 @@ theorem Inv_connTlsStart {u ut : Option Nat} {c : Conn} (h : Inv u ut c) (hs : c
   have key : ∀ (ht sec tf : Bool) (er : Int), (ht = true → sec = true) → (sec = true ∨ sec = c.secured) →
       Inv u ut { c with hasTls := ht, secured := sec, tlsFailed := tf, error := er } := by
     intro ht sec tf er h1 h2
-    have m : Mono c { c with hasTls := ht, secured := sec, tlsFailed := tf, error := er } → True := fun _ => trivial
     refine ⟨⟨h.g.nc, h.g.userH, h.g.userI, h.g.ud0, h.g.uniq, ?_, fun _ => hn, ?_⟩, ?_, ?_, ?_⟩
     · intro hc hm e he hb
       have := (h.g.q1 hc hm e he hb).2
@@ -814,5 +818,136 @@ theorem Inv_connTlsStart {u ut : Option Nat} {c : Conn} (h : Inv u ut c) (hs : c
     · split
       · exact key false c.secured true 71 (by simp) (.inr rfl)
       · exact key true true c.tlsFailed c.error (by simp) (.inl rfl)
+
+/-! ### exemptions -/
+
+theorem NoH.weaken {u : Option Nat} {p : HFun → Bool} {c : Conn} (h : NoH none p c) : NoH u p c :=
+  fun x hx hp => absurd (h x hx hp) (by simp)
+theorem NoTM.weaken {ut : Option Nat} {c : Conn} (h : NoTM none c) : NoTM ut c :=
+  fun x hx hp => absurd (h x hx hp) (by simp)
+
+theorem Inv.weaken {u ut : Option Nat} {c : Conn} (h : Inv none none c) : Inv u ut c := by
+  refine ⟨⟨h.g.nc, h.g.userH, h.g.userI, h.g.ud0, h.g.uniq, h.g.q1, fun hs => (h.g.noT hs).weaken, h.g.gated⟩,
+    ⟨h.ph.idFn, fun x hx y hy px py _ _ => h.ph.uniqS x hx y hy px py (by simp) (by simp), h.ph.uniqTM, ?_, ?_, ?_,
+      h.ph.e7, h.ph.frp⟩, ⟨?_, ?_, h.me.k⟩, h.el⟩
+  · rcases h.ph.excl with ⟨a, b⟩ | ⟨⟨a, a'⟩, b⟩ | ⟨⟨a, a'⟩, b⟩
+    · exact .inl ⟨a.weaken, b.weaken⟩
+    · exact .inr (.inl ⟨⟨a.weaken, a'.weaken⟩, b.weaken⟩)
+    · exact .inr (.inr ⟨⟨a.weaken, a'.weaken⟩, b.weaken⟩)
+  · intro f
+    obtain ⟨a, b, d, e⟩ := h.ph.e5 f
+    exact ⟨a.weaken, b.weaken, d.weaken, e.weaken⟩
+  · intro l
+    obtain ⟨a, b, d, e, o⟩ := h.ph.e6 l
+    exact ⟨a.weaken, b.weaken, d.weaken, e.weaken, o⟩
+  · intro hl
+    rcases h.me.i1 hl with n | ⟨a, b, d, e⟩
+    · exact .inl n
+    · exact .inr ⟨a.weaken, b.weaken, d.weaken, e⟩
+  · intro hl
+    rcases h.me.i2 hl with a | n
+    · exact .inl a.weaken
+    · exact .inr n
+
+/-- the handler that was running is gone: no exemption any more -/
+theorem Inv.unexempt {ut : Option Nat} {c : Conn} (uid : Nat) (h : Inv (some uid) ut c) :
+    Inv none ut { c with handlers := c.handlers.filter (·.uid ≠ uid) } := by
+  have h' := Inv_filterHandlers h (·.uid ≠ uid)
+  have cl : ∀ p, NoH (some uid) p { c with handlers := c.handlers.filter (·.uid ≠ uid) } →
+      NoH none p { c with handlers := c.handlers.filter (·.uid ≠ uid) } := by
+    intro p n x hx hp
+    have := n x hx hp
+    have hne := (List.mem_filter.1 hx).2
+    simp at this hne
+    exact absurd this hne
+  refine ⟨⟨h'.g.nc, h'.g.userH, h'.g.userI, h'.g.ud0, h'.g.uniq, h'.g.q1, fun hs => cl _ (h'.g.noT hs), h'.g.gated⟩,
+    ⟨h'.ph.idFn, ?_, h'.ph.uniqTM, ?_, ?_, ?_, h'.ph.e7, h'.ph.frp⟩, ⟨?_, ?_, h'.me.k⟩, h'.el⟩
+  · intro x hx y hy px py _ _
+    have nx := (List.mem_filter.1 hx).2
+    have ny := (List.mem_filter.1 hy).2
+    exact h'.ph.uniqS x hx y hy px py (by simpa using nx) (by simpa using ny)
+  · rcases h'.ph.excl with ⟨a, b⟩ | ⟨⟨a, a'⟩, b⟩ | ⟨⟨a, a'⟩, b⟩
+    · exact .inl ⟨cl _ a, cl _ b⟩
+    · exact .inr (.inl ⟨⟨cl _ a, a'⟩, cl _ b⟩)
+    · exact .inr (.inr ⟨⟨cl _ a, a'⟩, cl _ b⟩)
+  · intro f
+    obtain ⟨a, b, d, e⟩ := h'.ph.e5 f
+    exact ⟨cl _ a, b, cl _ d, cl _ e⟩
+  · intro l
+    obtain ⟨a, b, d, e, o⟩ := h'.ph.e6 l
+    exact ⟨cl _ a, b, cl _ d, cl _ e, o⟩
+  · intro hl
+    rcases h'.me.i1 hl with n | ⟨a, b, d, e⟩
+    · exact .inl n
+    · exact .inr ⟨cl _ a, b, cl _ d, e⟩
+  · intro hl
+    rcases h'.me.i2 hl with a | n
+    · exact .inl (cl _ a)
+    · exact .inr n
+
+/-- same for the timer that was running -/
+theorem Inv.unexemptT {u : Option Nat} {c : Conn} (uid : Nat) (h : Inv u (some uid) c) :
+    Inv u none { c with timed := c.timed.filter (·.uid ≠ uid) } := by
+  have h' := Inv_filterTimed h (·.uid ≠ uid)
+  have cl : NoTM (some uid) { c with timed := c.timed.filter (·.uid ≠ uid) } →
+      NoTM none { c with timed := c.timed.filter (·.uid ≠ uid) } := by
+    intro n x hx hp
+    have := n x hx hp
+    have hne := (List.mem_filter.1 hx).2
+    simp at this hne
+    exact absurd this hne
+  refine ⟨h'.g, ⟨h'.ph.idFn, h'.ph.uniqS, h'.ph.uniqTM, ?_, ?_, ?_, h'.ph.e7, h'.ph.frp⟩, ⟨?_, h'.me.i2, h'.me.k⟩, h'.el⟩
+  · rcases h'.ph.excl with ⟨a, b⟩ | ⟨⟨a, a'⟩, b⟩ | ⟨⟨a, a'⟩, b⟩
+    · exact .inl ⟨a, b⟩
+    · exact .inr (.inl ⟨⟨a, cl a'⟩, b⟩)
+    · exact .inr (.inr ⟨⟨a, cl a'⟩, b⟩)
+  · intro f
+    obtain ⟨a, b, d, e⟩ := h'.ph.e5 f
+    exact ⟨a, cl b, d, e⟩
+  · intro l
+    obtain ⟨a, b, d, e, o⟩ := h'.ph.e6 l
+    exact ⟨a, cl b, d, e, o⟩
+  · intro hl
+    rcases h'.me.i1 hl with n | ⟨a, b, d, e⟩
+    · exact .inl n
+    · exact .inr ⟨a, cl b, d, e⟩
+
+/-! ### updates of the stream-management record and of the ghost -/
+
+theorem Inv_smUpdate {u ut : Option Nat} {c : Conn} (h : Inv u ut c) (s' : SmState)
+    (hq : ∀ e ∈ s'.queue, e ∈ c.sm.queue)
+    (he : s'.enabled = true → c.sm.enabled = true ∨ (LateC c ∧ c.state ≠ .disconnected)) :
+    Inv u ut { c with sm := s' } := by
+  have hlate : LateC { c with sm := s' } → LateC c := by
+    rintro (l | l | l | l | l)
+    · exact .inl l
+    · exact .inr (.inl l)
+    · exact .inr (.inr (.inl l))
+    · exact .inr (.inr (.inr (.inl l)))
+    · rcases he l with e | ⟨e, _⟩
+      · exact .inr (.inr (.inr (.inr e)))
+      · exact e
+  refine ⟨⟨h.g.nc, h.g.userH, h.g.userI, h.g.ud0, h.g.uniq, h.g.q1, h.g.noT, h.g.gated⟩,
+    ⟨h.ph.idFn, h.ph.uniqS, h.ph.uniqTM, h.ph.excl, h.ph.e5, fun l => h.ph.e6 (hlate l), ?_, h.ph.frp⟩,
+    ⟨h.me.i1, h.me.i2, h.me.k⟩, ⟨h.el.txN, h.el.qN, fun e he' => h.el.smN e (hq e he')⟩⟩
+  intro hd
+  cases hs : s'.enabled
+  · rfl
+  · rcases he hs with e | ⟨_, e⟩
+    · rw [h.ph.e7 hd] at e; cases e
+    · exact absurd hd e
+
+/-- in the late phase the offers no longer matter -/
+theorem Inv_ghost_late {u ut : Option Nat} {c : Conn} (h : Inv u ut c) (l : LateC c) (g' : Ghost) :
+    Inv u ut { c with g := g' } := by
+  obtain ⟨a, b, d, e, o⟩ := h.ph.e6 l
+  exact ⟨⟨h.g.nc, h.g.userH, h.g.userI, h.g.ud0, h.g.uniq, h.g.q1, h.g.noT, h.g.gated⟩,
+    ⟨h.ph.idFn, h.ph.uniqS, h.ph.uniqTM, h.ph.excl, h.ph.e5, h.ph.e6, h.ph.e7, h.ph.frp⟩,
+    ⟨fun _ => .inr ⟨a, b, d, fun _ => o⟩, fun _ => .inl e, h.me.k⟩, ⟨h.el.txN, h.el.qN, h.el.smN⟩⟩
+
+/-- ghost updates that leave the offers alone -/
+theorem Inv_ghost_same {u ut : Option Nat} {c : Conn} (h : Inv u ut c) (g' : Ghost)
+    (e : g'.offeredMechs = c.g.offeredMechs) : Inv u ut { c with g := g' } :=
+  h.same (by simp [SameAll, e])
 
 end Strophe.Lemmas.ConnC02
